@@ -262,9 +262,9 @@ theorem droppable_nl {L : Str} {st : List RedirCell} {ts : List Token} {i c : Na
 
 /-- **a run that was delivered dropped NEWLINE tokens and the end-of-input token only, with the
     cursor at the end of its line, ran over layout: `Spec.isLayout` holds of the whole line** -/
-theorem none_layout {L : Str} {lead : List Token} {t : Token}
-    (h : ChainL L [] 0 (lead ++ [t]) L.length) (hd : ∀ x ∈ lead, Droppable x)
-    (ht : t.ttype = some .EOF) : Spec.isLayout (L.length + 1) L = true := by
+theorem none_LF {L : Str} {lead : List Token} {t : Token} {c : Nat}
+    (h : ChainL L [] 0 (lead ++ [t]) c) (hd : ∀ x ∈ lead, Droppable x)
+    (ht : t.ttype = some .EOF) : LF L 0 L.length := by
   have hnl : ∀ x ∈ lead, x.ttype = some .NEWLINE :=
     fun x hx => droppable_nl h (List.mem_append_left _ hx) (hd x hx)
   have hnb : ∀ p, ¬ InBody ([] : List RedirCell) p := by
@@ -282,13 +282,58 @@ theorem none_layout {L : Str} {lead : List Token} {t : Token}
   have l2 : LF L m L.length := LF.region (i' - m) m i' rfl c1 hsk.le_len c2 (fun p _ _ => hnb p) l1
   have l3 : LF L 0 L.length := chain_layout h1 hnl (by have := l2.1; omega)
     (fun p _ _ => hnb p) l2
-  have := l3.2.2 (L.length + 1) (by omega)
+  exact l3
+
+theorem LF.whole {L : Str} (h : LF L 0 L.length) : ∀ fuel, L.length ≤ fuel →
+    Spec.isLayout fuel L = true := by
+  intro fuel hf
+  have := h.2.2 fuel (by omega)
   have e : Str.slice L 0 L.length = L := by simp [Str.slice]
   rw [e] at this
   exact this
 
+theorem none_layout {L : Str} {lead : List Token} {t : Token}
+    (h : ChainL L [] 0 (lead ++ [t]) L.length) (hd : ∀ x ∈ lead, Droppable x)
+    (ht : t.ttype = some .EOF) : Spec.isLayout (L.length + 1) L = true :=
+  (none_LF h hd ht).whole _ (by omega)
+
+/-- a region reaching the end of the line -/
+theorem LF.region_trunc {L : Str} {st : List RedirCell} {x y : Nat} (hx : x ≤ L.length)
+    (hy : L.length ≤ y) (hr : GRegT L st x y) (hnb : ∀ p, ¬ InBody st p) : LF L x L.length :=
+  LF.region (L.length - x) x L.length rfl hx (Nat.le_refl _)
+    (fun p h1 h2 h3 => hr p h1 (by omega) h3) (fun p _ _ => hnb p) (LF.refl L (Nat.le_refl _))
+
+/-- a stretch of dropped NEWLINE tokens whose cursor reaches the end of the line or goes beyond
+    it (the dead state): the line from `i` on is layout -/
+theorem chain_trunc {L : Str} {st : List RedirCell} (hnb : ∀ p, ¬ InBody st p) :
+    ∀ {ts : List Token} {i m : Nat}, ChainL L st i ts m → (∀ t ∈ ts, t.ttype = some .NEWLINE) →
+      i ≤ L.length → L.length ≤ m → LF L i L.length
+  | [], i, m, h, _, hi, hm => LF.region_trunc hi hm h.2 hnb
+  | t :: ts, i, m, h, hty, hi, hm => by
+    obtain ⟨i', e, a1, a2, a3, a4⟩ := h
+    by_cases h1 : L.length ≤ i'
+    · exact LF.region_trunc hi h1 a2 hnb
+    · have hi' : i' ≤ L.length := by omega
+      have hnl := hty t List.mem_cons_self
+      have l2 : LF L i' L.length := by
+        by_cases h2 : e ≤ L.length
+        · have l1 : LF L e L.length :=
+            chain_trunc hnb a4 (fun t' ht' => hty t' (List.mem_cons_of_mem _ ht')) h2 hm
+          exact LF.deliv_nl a3 hnl h2 (fun p _ _ => hnb p) l1
+        · rcases a3 with ⟨a, hsk, hpos, hae, hcase⟩ | ⟨rfl, _, _⟩
+          · rcases hcase with ⟨hnn, _⟩ | ⟨_, hLa, hreg⟩
+            · obtain ⟨ty, q1, q2, _⟩ := hnn
+              rw [q1] at hnl; cases hnl; exact absurd rfl q2
+            · have halt : a < L.length := (List.getElem?_eq_some_iff.mp hLa).1
+              have l1 : LF L (a + 1) L.length :=
+                LF.region_trunc (by omega) (by omega) hreg hnb
+              exact LF.skip hsk (LF.cons_pn (Or.inl hLa) halt l1)
+          · cases hnl
+      exact LF.region (i' - i) i i' rfl a1 hi' a2 (fun p _ _ => hnb p) l2
+
 end Bashlex.C05.TGT
 
 #print axioms Bashlex.C05.TGT.none_layout
+#print axioms Bashlex.C05.TGT.chain_trunc
 #print axioms Bashlex.C05.TGT.gap_layout
 #print axioms Bashlex.C05.TGT.lead_layout
